@@ -30,7 +30,9 @@ RULE = ("Programs decoded from a Hypothesis-drawn genome: DEFINT/SNG/DBL/STR on 
         "globals X Y N with every sigil (strings on the heap), an array named like a parameter, 1-3 "
         "functions with 0-4 distinct parameters (explicit and DEFtype-resolved types), bodies over "
         "parameters, same-named globals, constants, + - * /, LEN, string +, FRE(\"\"), SQR, calls to "
-        "the other functions (nesting <= 3), self and mutual recursion; arguments that convert (3.75 "
+        "CHR$, the other functions (nesting <= 3), self and mutual recursion; 0-2 earlier calls in "
+        "the same session before the judged one (mostly made to fail: in the body, in a nested "
+        "call, in the arguments), each judged like a first call, DEF FN never re-executed; arguments that convert (3.75 "
         "-> integer), overflow (40000 -> %), mismatch (string <-> number), divide by zero; called "
         "from direct mode, from a program line, and under ON ERROR GOTO.  Non-trivial: a global "
         "shares its name with a parameter of a function that is evaluated, and the call raised or "
@@ -82,6 +84,8 @@ def render(e):
         return 'LEN(%s)' % render(e[1])
     if k == 'sqr':
         return 'SQR(%s)' % render(e[1])
+    if k == 'chr':
+        return 'CHR$(%s)' % render(e[1])
     if k == 'fre':
         return 'FRE("")'
     if k == 'call':
@@ -146,6 +150,7 @@ class Ref(object):
         self.fns = {}
         for f in case['fns']:
             self.fns[resolve(f['name'], self.deftypes)] = f
+        self.entered_body = False          # some function body was evaluated (not only arguments)
         self.known_result_taint = False    # finding: result/argument is a view of a parameter
         self.leak = False                  # finding: string argument leaked by a failed call
         self.gc_vars = set()               # finding: string parameters shadowed while GC ran
@@ -224,6 +229,12 @@ class Ref(object):
                     return ('n', Fraction(root))
             self.note('sqr')
             return ('n', Fraction(int(float(a[1]) ** 0.5 * 1024), 1024))
+        if k == 'chr':
+            a = self.eval(e[1], env, active)
+            n_ = convert(a, '%', self)[1]
+            if not 0 <= n_ <= 255:
+                raise Err({5})
+            return ('s', chr(int(n_)))
         if k == 'fre':
             self.gc_ran = True
             for f in active:
@@ -287,6 +298,7 @@ class Ref(object):
         for p in params:
             if p in self.globals:
                 self.shadowing = True
+        self.entered_body = True
         inner = dict(env)
         for p, v in zip(params, args):
             inner[p] = v
@@ -331,9 +343,15 @@ def program_lines(case, route):
         # parameters without a sigil take their type when the function is evaluated
         lines.append('480 ' + ':'.join(late))
     lines.append('490 STOP')
-    lines.append('500 RZ%s=%s' % (rsig, render(case['call'])))
+    n = 492
+    for prior in case.get('prior') or []:
+        # earlier calls of the history; the DEF FN statements are not executed again
+        psig = resolve(prior[1], case['deftypes'])[-1]
+        lines.append('%d EZ%%=0:RZ%s=%s:STOP' % (n, psig, render(prior)))
+        n += 2
+    lines.append('500 EZ%%=0:RZ%s=%s' % (rsig, render(case['call'])))
     lines.append('510 END')
-    lines.append('900 EZ%=ERR:RESUME 510')
+    lines.append('900 EZ%=ERR:RESUME NEXT')
     return lines, rsig
 
 
@@ -389,12 +407,8 @@ def same_want(a, b):
     return a[1] == b[1]
 
 
-def check_case(case):
-    res = Result()
-    route = case['route']
-    # the four DEF FN findings were fixed in bdb77144: their regions are asserted like any other
-    # (own bucket keys kept); 'strict': False would skip them again
-    strict = bool(case.get('strict', True))
+def expectation_for(case, route, res=None):
+    """Reference verdict for case['call'] (both readings if a late DEFtype applies)."""
     ref, want = expectation(case, route, False)
     if case.get('late'):
         # a DEFtype executed between DEF FN and call.  The manual: the default type is "assumed if
@@ -406,19 +420,21 @@ def check_case(case):
         if want[0] == 'unspec' or want_b[0] == 'unspec' or not same_want(want, want_b):
             want = ('unspec', 'late-deftype-readings-differ' if want[0] != 'unspec' and
                     want_b[0] != 'unspec' else want[1] if want[0] == 'unspec' else want_b[1])
-        else:
+        elif res is not None:
             res.label('late-deftype-asserted')
+    return ref, want
+
+
+def check_case(case):
+    res = Result()
+    route = case['route']
+    # the four DEF FN findings were fixed in bdb77144: their regions are asserted like any other
+    # (own bucket keys kept); 'strict': False would skip them again
+    strict = bool(case.get('strict', True))
+    calls = list(case.get('prior') or []) + [case['call']]
     lines, rsig = program_lines(case, route)
     res.label('route.' + route)
-    res.label('want.' + ('err.' + '/'.join(str(c) for c in sorted(want[1])) if want[0] == 'err'
-                         else 'unspec.' + want[1] if want[0] == 'unspec' else want[0]))
-    res.label('depth.%d' % ref.maxdepth)
-    raised = want[0] == 'err'
-    res.nt(ref.shadowing and (raised or ref.maxdepth >= 2))
-    if ref.shadowing:
-        res.label('shadowing')
-    if ref.gc_ran:
-        res.label('gc-inside-call')
+    res.label('prior-calls.%d' % (len(calls) - 1))
 
     with harness.Sess() as s:
         o = s.execute('\n'.join(lines) + '\nRUN')
@@ -437,120 +453,149 @@ def check_case(case):
                 res.fail('setup.global-value', '%s holds %r, expected %r\n%s' % (
                     name, snap0[name], v, '\n'.join(lines)))
                 return res
-        # the call
-        text = render(case['call'])
-        if route == 'eval':
-            o = s.evaluate(text)
-        else:
-            o = s.execute('GOTO 500')
-        where = '%s  [%s]\n%s' % (text, route, '\n'.join(lines))
-        if o.kind == 'budget':
-            res.inconclusive = True
-            return res
-        if o.kind == 'escaped':
-            exc = '%s@%s' % (o.exc, o.frame)
-            known = None
-            if exc == 'KeyError@strings.py:_retrieve':
-                # consequences of two findings inside the same call: a collection after a string
-                # parameter's global was dropped, or after a failed inner call leaked its argument
-                if ref.gc_vars:
-                    known = 'caller-var.string-parameter-lost-in-gc'
-                elif ref.leak and ref.gc_ran:
-                    known = 'gc-after-failed-call.leaked-string-argument'
-            if known and not strict:
-                res.excluded += 1
-                res.label('region.' + known)
+        failed_before = None          # how an earlier call of this history failed, if one did
+        for ci, call in enumerate(calls):
+            last = ci == len(calls) - 1
+            sub = dict(case, call=call)
+            ref, want = expectation_for(sub, route, res if last else None)
+            csig = resolve(call[1], case['deftypes'])[-1]
+            if last:
+                res.label('want.' + ('err.' + '/'.join(str(c) for c in sorted(want[1]))
+                                     if want[0] == 'err' else 'unspec.' + want[1]
+                                     if want[0] == 'unspec' else want[0]))
+                res.label('depth.%d' % ref.maxdepth)
+                if failed_before:
+                    res.label('history.call-after-failure-in-' + failed_before)
+                if ref.shadowing:
+                    res.label('shadowing')
+                if ref.gc_ran:
+                    res.label('gc-inside-call')
+            raised = want[0] == 'err'
+            res.nt(ref.shadowing and (raised or ref.maxdepth >= 2 or bool(failed_before)))
+            # the call
+            text = render(call)
+            if route == 'eval':
+                o = s.evaluate(text)
             else:
-                res.fail(known or 'escaped.' + exc, '%s\n%s' % (where, o.tb))
-            return res
-        if route == 'eval':
-            got_err = [c for c, _ in o.errors]
-            got_val = o.value
-        elif route == 'prog':
-            got_err = [c for c, _ in o.errors]
-            got_val = s.get('RZ' + rsig)
-        else:
-            ez = s.get('EZ%')
-            got_err = [ez] if ez else []
-            if o.errors:
-                res.fail('trap.message-printed', '%s: %r' % (where, o))
-            got_val = s.get('RZ' + rsig)
-
-        # (B)/(C) result or error code
-        problem = None
-        if want[0] == 'err':
-            codes = want[1]
-            if not got_err:
-                problem = ('recursion.no-error' if 7 in codes else 'call.error-missing',
-                           '%s: expected error %s, got value %r' % (where, sorted(codes), got_val))
-            elif got_err[0] not in codes:
-                problem = ('recursion.wrong-error' if 7 in codes else 'call.error-code',
-                           '%s: expected error %s, got %r' % (where, sorted(codes), got_err))
-        elif want[0] == 'soft':
-            if not got_err or got_err[0] != want[1]:
-                problem = ('call.error-code', '%s: expected message %d first, got %r' % (
-                    where, want[1], got_err))
-        elif want[0] == 'val':
-            exp = pyval(want[1])
-            if got_err:
-                problem = ('call.unexpected-error', '%s: expected %r, got error %r' % (
-                    where, exp, got_err))
-            elif got_val is None or as_exact(got_val) != exp:
-                problem = ('result.value', '%s: returned %r, expected %r' % (where, got_val, exp))
-        if problem:
-            if ref.known_result_taint:
-                # region of a finding: a parameter is read after it was rebound or restored
-                if strict:
-                    res.fail('result.parameter-read-after-rebinding', problem[1])
-                else:
-                    res.excluded += 1
-            else:
-                res.fail(*problem)
-        if ref.known_result_taint:
-            res.label('region.parameter-view')
-
-        # (A) the caller's variables
-        skip = set()
-        if ref.gc_vars and not strict:
-            skip = set(ref.gc_vars)
-            res.excluded += 1
-            res.label('region.string-parameter-gc')
-        for phase in ('after-call', 'after-gc'):
-            if phase == 'after-gc':
-                if (ref.leak or ref.gc_vars) and not strict:
-                    if ref.leak:
-                        res.excluded += 1
-                        res.label('region.leaked-string-argument')
-                    break
-                g = s.evaluate('FRE("")')
-                if g.kind == 'escaped':
-                    exc = '%s@%s' % (g.exc, g.frame)
-                    if ref.leak:
-                        key = 'gc-after-failed-call.leaked-string-argument'
-                    elif ref.gc_vars:
-                        key = 'caller-var.string-parameter-lost-in-gc'
-                    else:
-                        key = 'escaped.' + exc
-                    res.fail(key, 'FRE("") after %s\n%s' % (where, g.tb))
-                    return res
-                if g.kind != 'ok' or g.errors:
-                    res.fail('gc-after-call.error', 'FRE("") after %s: %r' % (where, g))
-                    return res
-            try:
-                snap = snapshot(s, case, skip)
-            except Exception as e:         # noqa: B902 -- a broken variable table is a finding
-                res.fail('caller-var.unreadable.%s' % type(e).__name__, '%s after %s' % (e, where))
+                o = s.execute('GOTO %d' % (500 if last else 492 + 2 * ci))
+            where = 'call %d of %d%s: %s  [%s]\n%s' % (
+                ci + 1, len(calls), ' (an earlier call failed in the %s)' % failed_before
+                if failed_before else '', text, route, '\n'.join(lines))
+            if o.kind == 'budget':
+                res.inconclusive = True
                 return res
-            for name in sorted(snap):
-                if snap[name] != snap0[name]:
-                    if name in ref.gc_vars:
-                        key = 'caller-var.string-parameter-lost-in-gc'
-                    elif raised or got_err:
-                        key = 'caller-var.changed-after-error'
+            if o.kind == 'escaped':
+                exc = '%s@%s' % (o.exc, o.frame)
+                known = None
+                if exc == 'KeyError@strings.py:_retrieve':
+                    # consequences of two findings inside the same call: a collection after a
+                    # string parameter's global was dropped, or after a failed inner call leaked
+                    # its argument
+                    if ref.gc_vars:
+                        known = 'caller-var.string-parameter-lost-in-gc'
+                    elif ref.leak and ref.gc_ran:
+                        known = 'gc-after-failed-call.leaked-string-argument'
+                if known and not strict:
+                    res.excluded += 1
+                    res.label('region.' + known)
+                else:
+                    res.fail(known or 'escaped.' + exc, '%s\n%s' % (where, o.tb))
+                return res
+            if route == 'eval':
+                got_err = [c for c, _ in o.errors]
+                got_val = o.value
+            elif route == 'prog':
+                got_err = [c for c, _ in o.errors]
+                got_val = s.get('RZ' + csig)
+            else:
+                ez = s.get('EZ%')
+                got_err = [ez] if ez else []
+                if o.errors:
+                    res.fail('trap.message-printed', '%s: %r' % (where, o))
+                got_val = s.get('RZ' + csig)
+
+            # (B)/(C) result or error code
+            problem = None
+            if want[0] == 'err':
+                codes = want[1]
+                if not got_err:
+                    problem = ('recursion.no-error' if 7 in codes else 'call.error-missing',
+                               '%s: expected error %s, got value %r' % (where, sorted(codes), got_val))
+                elif got_err[0] not in codes:
+                    problem = ('recursion.wrong-error' if 7 in codes else 'call.error-code',
+                               '%s: expected error %s, got %r' % (where, sorted(codes), got_err))
+            elif want[0] == 'soft':
+                if not got_err or got_err[0] != want[1]:
+                    problem = ('call.error-code', '%s: expected message %d first, got %r' % (
+                        where, want[1], got_err))
+            elif want[0] == 'val':
+                exp = pyval(want[1])
+                if got_err:
+                    problem = ('call.unexpected-error', '%s: expected %r, got error %r' % (
+                        where, exp, got_err))
+                elif got_val is None or as_exact(got_val) != exp:
+                    problem = ('result.value', '%s: returned %r, expected %r' % (where, got_val, exp))
+            if problem:
+                if ref.known_result_taint:
+                    # region of a finding: a parameter is read after it was rebound or restored
+                    if strict:
+                        res.fail('result.parameter-read-after-rebinding', problem[1])
                     else:
-                        key = 'caller-var.changed'
-                    res.fail(key, '%s: %s was %r, is %r %s' % (
-                        where, name, snap0[name], snap[name], phase))
+                        res.excluded += 1
+                elif failed_before and want[0] == 'val' and got_err:
+                    # a later call must behave like a first call
+                    res.fail('later-call.fails-after-failed-call', problem[1])
+                else:
+                    res.fail(*problem)
+            if ref.known_result_taint:
+                res.label('region.parameter-view')
+
+            # (A) the caller's variables
+            skip = set()
+            if ref.gc_vars and not strict:
+                skip = set(ref.gc_vars)
+                res.excluded += 1
+                res.label('region.string-parameter-gc')
+            for phase in ('after-call', 'after-gc'):
+                if phase == 'after-gc':
+                    if not last:
+                        break
+                    if (ref.leak or ref.gc_vars) and not strict:
+                        if ref.leak:
+                            res.excluded += 1
+                            res.label('region.leaked-string-argument')
+                        break
+                    g = s.evaluate('FRE("")')
+                    if g.kind == 'escaped':
+                        exc = '%s@%s' % (g.exc, g.frame)
+                        if ref.leak:
+                            key = 'gc-after-failed-call.leaked-string-argument'
+                        elif ref.gc_vars:
+                            key = 'caller-var.string-parameter-lost-in-gc'
+                        else:
+                            key = 'escaped.' + exc
+                        res.fail(key, 'FRE("") after %s\n%s' % (where, g.tb))
+                        return res
+                    if g.kind != 'ok' or g.errors:
+                        res.fail('gc-after-call.error', 'FRE("") after %s: %r' % (where, g))
+                        return res
+                try:
+                    snap = snapshot(s, case, skip)
+                except Exception as e:         # noqa: B902 -- a broken variable table is a finding
+                    res.fail('caller-var.unreadable.%s' % type(e).__name__, '%s after %s' % (e, where))
+                    return res
+                for name in sorted(snap):
+                    if snap[name] != snap0[name]:
+                        if name in ref.gc_vars:
+                            key = 'caller-var.string-parameter-lost-in-gc'
+                        elif raised or got_err:
+                            key = 'caller-var.changed-after-error'
+                        else:
+                            key = 'caller-var.changed'
+                        res.fail(key, '%s: %s was %r, is %r %s' % (
+                            where, name, snap0[name], snap[name], phase))
+            if got_err and not failed_before:
+                failed_before = 'body' if ref.entered_body else 'arguments'
     return res
 
 
@@ -646,11 +691,16 @@ class Builder(object):
             args.append(self.expr(want, depth - 1, frm, params))
         return ['call', self.fnspell[j], args]
 
+    hostile = False
+
     def expr(self, kind, depth, frm, params):
         g = self.g
         k = g.take(16)
         if kind == 'n':
             if depth <= 0 or k < 4:
+                if self.hostile and g.take(2):
+                    # arguments that make a body fail: SQR(<0), CHR$(>255), % overflow, 1/0
+                    return ['c', g.pick(['-4', '40000', '0', '-1', '300', '70000', '-9'])]
                 if k % 2 == 0:
                     return ['c', g.pick(NUMCONST)]
                 return ['v', g.pick(self.spellings('n', params))]
@@ -665,7 +715,7 @@ class Builder(object):
             if k == 13:
                 return ['len', self.expr('s', depth - 1, frm, params)]
             if k == 14:
-                if g.take(3):
+                if g.take(3) == 0:
                     return ['fre']
                 return ['sqr', self.expr('n', depth - 1, frm, params)]
             return ['v', g.pick(self.spellings('n', params))]
@@ -681,6 +731,8 @@ class Builder(object):
                 return self.call(g.pick(fs), depth, frm, params)
         if k == 15:
             return ['+', self.expr('s', depth - 1, frm, params), self.expr('n', depth - 1, frm, params)]
+        if k == 14:
+            return ['chr', self.expr('n', depth - 1, frm, params)]
         return ['v', g.pick(self.spellings('s', params))]
 
     def build(self, route, gc):
@@ -708,8 +760,15 @@ class Builder(object):
             array = [b, 'arr' if b[-1] == '$' else 7]
         j = g.pick([0, 0, 0, 1, 2]) % self.nfn
         call = self.call(j, 2, -1, ())
+        # earlier calls of the same session, made to fail more often than not
+        prior = []
+        for _ in range(g.pick([0, 1, 0, 2, 1, 0])):
+            self.hostile = g.take(4) > 0
+            pj = j if g.take(3) else g.take(self.nfn)
+            prior.append(self.call(pj, 2, -1, ()))
+        self.hostile = False
         return {'deftypes': self.early, 'late': self.late, 'globals': globs, 'array': array,
-                'fns': fns, 'call': call, 'route': route}
+                'fns': fns, 'call': call, 'prior': prior, 'route': route}
 
 
 def strat():
@@ -726,11 +785,12 @@ def units(tier):
     ]
 
 
-def _case(globs, fns, call, route='eval', deftypes=None, strict=True, array=None, late=None):
+def _case(globs, fns, call, route='eval', deftypes=None, strict=True, array=None, late=None,
+          prior=None):
     dt = {letter: None for letter in BASES + FNBASES}
     dt.update(deftypes or {})
     return {'deftypes': dt, 'late': late or {}, 'globals': globs, 'array': array, 'fns': fns,
-            'call': call, 'route': route, 'strict': strict}
+            'call': call, 'prior': prior or [], 'route': route, 'strict': strict}
 
 
 REGRESSIONS = [
@@ -750,6 +810,15 @@ REGRESSIONS = [
     _case([['X!', 2.5], ['X$', 'glob']], [{'name': 'F$', 'params': ['X'],
                                           'body': ['cat', ['v', 'X'], ['s', 'z']]}],
           ['call', 'F$', [['cat', ['s', 'a'], ['s', 'b']]]], late={'X': '$'}),
+    # a call that fails inside the body, then the same function (or one using it) again
+    _case([['X!', 9]], [{'name': 'A', 'params': ['X'], 'body': ['sqr', ['v', 'X']]}],
+          ['call', 'A', [['c', '4']]], route='trap', prior=[['call', 'A', [['c', '-4']]]]),
+    _case([['X!', 9]], [{'name': 'A', 'params': ['X'], 'body': ['sqr', ['v', 'X']]}],
+          ['call', 'A', [['c', '16']]], route='prog', prior=[['call', 'A', [['c', '-4']]]]),
+    _case([['N$', 'glob']], [{'name': 'A$', 'params': ['N%'], 'body': ['cat', ['chr', ['v', 'N%']], ['v', 'N$']]},
+                             {'name': 'B$', 'params': ['X'], 'body': ['call', 'A$', [['+', ['v', 'X'], ['c', '1']]]]}],
+          ['call', 'B$', [['c', '64']]], route='eval',
+          prior=[['call', 'B$', [['c', '300']]], ['call', 'A$', [['cat', ['s', 'a'], ['s', 'b']]]]]),
     # recursion: direct and mutual
     _case([['X!', 2]], [{'name': 'A', 'params': ['X'], 'body': ['call', 'A', [['v', 'X']]]}],
           ['call', 'A', [['c', '1']]], route='trap'),
